@@ -30,10 +30,14 @@ DECIDES = ('Composition of USBSerialDevice, each clause a necessary condition: (
            'from a registered IN endpoint, connect drives the device connect, each through a single unconditional driver; control, '
            'IN and OUT endpoints are all registered with the USBDevice submodule; (e) the bus given to the constructor is the bus of '
            'USBDevice and of its control endpoint, the descriptors given to the standard handler are those of create_descriptors, '
-           'the endpoint-number attributes equal the constructor arguments. ')
-NOT_DECIDED = ('enumeration behaviour itself (C07, C09, C10, C11), byte order and exactly-once delivery through the endpoints and FIFOs '
-               '(C13, C14, C03), behaviour under stream back-pressure, the contents of the line coding (ignored by design), string / '
-               'device descriptor contents.')
+           'every registered endpoint class compares the token endpoint with exactly the endpoint_number it is constructed with; '
+           'thorough tier: the same for max_packet_size 256 and 512. ')
+NOT_DECIDED = ('enumeration behaviour itself (control transfer stages C07, address / configuration C08, GET_DESCRIPTOR C09, STALL of '
+               'unsupported standard requests and the routing of the request multiplexer C10); byte order and exactly-once delivery '
+               'through the endpoints and FIFOs (bulk IN C11, bulk OUT C13, data toggles C14, FIFO C18, endpoint isolation C12); '
+               'behaviour under stream back-pressure patterns; the contents of the line coding (ignored by design); string / device '
+               'descriptor contents; whether the explicitly added VENDOR/RESERVED StallOnlyRequestHandler has any effect (it never '
+               'claims, so on this tree the multiplexer fallback is what STALLs those requests).')
 
 CLASS, SET_LINE_CODING = 1, 0x20           # [USB2.0: 9.3 bmRequestType.type], [CDC PSTN 1.2: 6.3.10]
 EP_DEFAULT_ATTR, EP_DEFAULT_WMAX = 2, 64   # defaults of usb_protocol's EndpointDescriptor (bulk, 64)
@@ -90,10 +94,16 @@ def guard_true(a, env):
     return True
 
 
+_DRV = {}
+
+
 def value(ir, name, env, init=0):
     """Value of a combinationally driven signal in one cycle: reset value, then the last assignment whose guard holds wins."""
     v = init
-    for a in sorted(ir.drivers(name, exact=True), key=lambda a: a.order):
+    key = (id(ir), name)
+    if key not in _DRV:
+        _DRV[key] = sorted(ir.drivers(name, exact=True), key=lambda a: a.order)
+    for a in _DRV[key]:
         if a.domain != 'comb' or a.state is not None:
             raise Undecided('%s is not a plain combinational output: %s' % (name, q.fmt(a)))
         if guard_true(a, env):
@@ -145,6 +155,22 @@ def owner(ctx, e):
             return o
         o = getattr(o, 'parent', None)
     return None
+
+
+def registry_attr(ctx, clsname, method, mod=None):
+    """Name of the self.<attr> a public registration method appends to / assigns (add_endpoint, add_interface, ...)."""
+    cls, fn = ctx.func(clsname, method, mod)
+    names = set()
+    for n in ast.walk(fn):
+        t = None
+        if isinstance(n, ast.Call) and isinstance(n.func, ast.Attribute) and n.func.attr in ('append', 'extend', 'add'):
+            t = n.func.value
+        elif isinstance(n, ast.Assign) and len(n.targets) == 1:
+            t = n.targets[0]
+        if isinstance(t, ast.Attribute) and isinstance(t.value, ast.Name) and t.value.id == fn.args.args[0].arg:
+            names.add(t.attr)
+    ctx.need(len(names) == 1, 'the attribute filled by %s.%s (%s)' % (clsname, method, sorted(names)))
+    return names.pop()
 
 
 def plain(a):
@@ -318,7 +344,7 @@ def check_device(ctx, tag, **cfg):
     devs = [s for s in top.submodules if isinstance(s.obj, Obj) and s.obj.clsname == 'USBDevice']
     ctx.need(len(devs) == 1, 'exactly one USBDevice submodule of USBSerialDevice (%d)' % len(devs))
     usb = devs[0].obj
-    eps = usb.attrs.get('_endpoints')
+    eps = usb.attrs.get(registry_attr(ctx, 'USBDevice', 'add_endpoint', 'usb2.device'))
     ctx.need(isinstance(eps, list) and all(isinstance(e, Obj) and e.cls is not None for e in eps),
              'endpoints registered with the USBDevice (add_endpoint)')
     ctrl = [e for e in eps if e.clsname == 'USBControlEndpoint']
@@ -389,7 +415,7 @@ def check_device(ctx, tag, **cfg):
                    f, 'read' if f in needed else 'not read', f, [q.fmt(x) for x in d]))
     d = top.drivers('self.tx.ready', exact=True)
     ok = len(d) == 1 and plain(d[0]) and d[0].rhs.canon() == txs + 'ready'
-    ctx.ob('C57.tx-wiring', K + '.tx.ready', ok, d[0].loc if d else None,
+    ctx.ob('C57.tx-wiring', K + '.tx.ready', ok, d[0].loc if d else tx_ep.loc,
            'tx.ready has the single unconditional driver %sready: %s' % (txs, [q.fmt(x) for x in d]))
     cn = usb.attrs.get('connect')
     ctx.need(isinstance(cn, E) and cn.op == 'sig', 'USBDevice.connect')
@@ -403,25 +429,40 @@ def check_device(ctx, tag, **cfg):
                'the endpoint behind %s (%s) is registered with the device exactly once (add_endpoint): registered %d time(s)' % (role, ep.path, n))
 
     # ---- numbers / directions of everything registered
+    memo = {}
+
     def info(e):
+        if id(e) not in memo:
+            memo[id(e)] = info_(e)
+        return memo[id(e)]
+
+    def info_(e):
         kw = ctor_kwargs(ctx, e)
-        n_kw, mps = num(kw.get('endpoint_number')), num(e.attrs.get('_max_packet_size'))
-        ctx.need(n_kw is not None and mps is not None, 'endpoint number and max packet size of %s fold to integers' % e.path)
-        dr = ep_direction(class_ir(ctx, e))
+        n, mps = num(kw.get('endpoint_number')), num(kw.get('max_packet_size'))
+        ctx.need(n is not None and mps is not None, 'endpoint_number / max_packet_size arguments of %s fold to integers' % e.path)
+        eir = class_ir(ctx, e)
+        dr = ep_direction(eir)
         ctx.need(dr is not None, 'direction of the endpoint class %s' % e.clsname)
-        return n_kw, dr, mps, num(e.attrs.get('_endpoint_number')), num(kw.get('max_packet_size'))
+        cmp_ = set()
+        for a in eir.assigns:
+            for x in [l.e for l in a.guard] + [a.rhs]:
+                for y in (x.walk() if isinstance(x, E) else ()):
+                    ce = q.const_eq(y) if y.op == '==' else None
+                    if ce and ce[1] == I + 'tokenizer.endpoint':
+                        cmp_.add(ce[0])
+        return n, dr, mps, cmp_
     reg = []          # (object, number, direction, max packet size) of the registered non-control endpoints
     extra = 0
     for e in eps + [x for x in (rx_ep, tx_ep) if not any(x is y for y in eps)]:
         if e is ctrl:
             continue
-        n_kw, dr, mps, n_attr, mps_kw = info(e)
+        n_kw, dr, mps, cmp_ = info(e)
         if e is rx_ep or e is tx_ep:
             role = 'rx' if e is rx_ep else 'tx'
         else:
             role, extra = 'other#%d' % extra, extra + 1
-        ctx.ob('C57.endpoint-config', K + '.%s.number' % role, n_attr == n_kw and 1 <= n_kw <= 15 and mps == mps_kw, e.loc,
-               '%s answers on the endpoint number / packet size it is constructed with (%s / %s; attributes %s / %s)' % (e.path, n_kw, mps_kw, n_attr, mps))
+        ctx.ob('C57.endpoint-config', K + '.%s.number' % role, cmp_ == {n_kw} and 1 <= n_kw <= 15, e.loc,
+               '%s (%s), constructed with endpoint_number=%s, compares the token endpoint with exactly that number: %s' % (e.path, e.clsname, n_kw, sorted(cmp_)))
         if any(e is y for y in eps):
             reg.append((e, n_kw, dr, mps))
     pairs = [(r[1], r[2]) for r in reg]
@@ -504,7 +545,7 @@ def check_device(ctx, tag, **cfg):
     ok = isinstance(ck.get('utmi'), (E, Obj)) and isinstance(ut, (E, Obj)) and (ck['utmi'] is ut or (isinstance(ut, E) and isinstance(ck['utmi'], E) and ck['utmi'].canon() == ut.canon()))
     ctx.ob('C57.bus', K + '.control-endpoint.utmi', ok, ctrl.loc, 'the control endpoint decodes SETUP packets from the UTMI bus of the device: %r vs %r' % (ck.get('utmi'), ut))
 
-    handlers = ctrl.attrs.get('_request_handlers')
+    handlers = ctrl.attrs.get(registry_attr(ctx, 'USBControlEndpoint', 'add_request_handler', 'usb2.control'))
     ctx.need(isinstance(handlers, list) and all(isinstance(h, Obj) and h.cls is not None for h in handlers), 'request handlers of the control endpoint')
     std = [h for h in handlers if h.clsname == 'StandardRequestHandler']
     acm = [h for h in handlers if h.clsname == 'ACMRequestHandlers']
@@ -643,8 +684,11 @@ def check_acm(ctx):
 
 def check_plumbing(ctx):
     mux = ctx.ir('USBRequestHandlerMultiplexer', 'usb2.request')
+    IFS = registry_attr(ctx, 'USBRequestHandlerMultiplexer', 'add_interface', 'usb2.request')
+    FB = registry_attr(ctx, 'USBRequestHandlerMultiplexer', 'set_fallback_interface', 'usb2.request')
+    HS = registry_attr(ctx, 'USBControlEndpoint', 'add_request_handler', 'usb2.control')
     for f in ('rx_ready_for_response', 'status_requested', 'data_requested', 'setup.type', 'setup.request'):
-        d = mux.drivers('self._interfaces[*].' + f, exact=True)
+        d = mux.drivers('self.%s[*].%s' % (IFS, f), exact=True)
         ok = len(d) == 1 and plain(d[0]) and d[0].rhs.canon() == 'self.shared.' + f
         ctx.ob('C57.handler-plumbing', 'USBRequestHandlerMultiplexer.broadcast.' + f, ok, d[0].loc if d else None,
                'every handler sees the shared %s (single unconditional driver): %s' % (f, [q.fmt(a) for a in d]))
@@ -652,12 +696,12 @@ def check_plumbing(ctx):
     ce = ctx.ir('USBControlEndpoint', 'usb2.control')
     rm = [s for s in ce.submodules if isinstance(s.obj, Obj) and s.obj.clsname == 'USBRequestHandlerMultiplexer']
     ctx.need(len(rm) == 1, 'the request multiplexer of USBControlEndpoint')
-    ifs = rm[0].obj.attrs.get('_interfaces')
-    ok = isinstance(ifs, list) and [x.canon() if isinstance(x, E) else getattr(x, 'path', None) for x in ifs] == ['self._request_handlers[*].interface']
+    ifs = rm[0].obj.attrs.get(IFS)
+    ok = isinstance(ifs, list) and [x.canon() if isinstance(x, E) else getattr(x, 'path', None) for x in ifs] == ['self.%s[*].interface' % HS]
     ctx.ob('C57.handler-plumbing', 'USBControlEndpoint.request_mux.interfaces', ok, rm[0].loc,
            'the interface of every registered request handler (and nothing else) is added to the multiplexer: %s' % (ifs,))
-    ctx.ob('C57.fallback', 'USBControlEndpoint.request_mux.fallback', '_fallback' in rm[0].obj.attrs and rm[0].obj.attrs['_fallback'] is None, rm[0].loc,
-           'the control endpoint installs no custom fallback, so unclaimed requests go to the multiplexer default: %r' % (rm[0].obj.attrs.get('_fallback', 'missing'),))
+    ctx.ob('C57.fallback', 'USBControlEndpoint.request_mux.fallback', FB in rm[0].obj.attrs and rm[0].obj.attrs[FB] is None, rm[0].loc,
+           'the control endpoint installs no custom fallback, so unclaimed requests go to the multiplexer default: %r' % (rm[0].obj.attrs.get(FB, 'missing'),))
     fb = [s for s in mux.submodules if isinstance(s.obj, Obj) and s.obj.clsname == 'StallOnlyRequestHandler']
     ok = len(fb) == 1 and not fb[0].obj.kwargs and not getattr(fb[0].obj, 'args', []) and \
         any(a.rhs is not None and isinstance(a.rhs, E) and a.rhs.canon() == fb[0].obj.path + '.interface.handshakes_out' and q.atoms(a) == {('encoder.n', True)}
@@ -665,14 +709,14 @@ def check_plumbing(ctx):
     ctx.ob('C57.fallback', 'USBRequestHandlerMultiplexer.default-fallback', ok, fb[0].loc if fb else None,
            'the default fallback is a StallOnlyRequestHandler without a condition whose handshakes are used when no handler claims')
     so = ctx.ir('StallOnlyRequestHandler', 'usb2.request')
-    outs = [I + 'handshakes_out.stall', I + 'handshakes_out.ack', I + 'handshakes_out.nak', I + 'tx.valid', I + 'claim']
+    outs = [I + 'handshakes_out.stall', I + 'handshakes_out.ack', I + 'handshakes_out.nak', I + 'tx.valid']
     sigs = {TYPE: 2, REQ: 8, I + 'data_requested': 1, I + 'status_requested': 1}
     sigs.update(read_sigs(so, outs))
     bad = []
     try:
         for env in valuations(ctx, 'the fallback handler', sigs):
             got = [value(so, o, env) for o in outs]
-            if got != [int(bool(env[I + 'data_requested'] or env[I + 'status_requested'])), 0, 0, 0, 0]:
+            if got != [int(bool(env[I + 'data_requested'] or env[I + 'status_requested'])), 0, 0, 0]:
                 bad.append(({k.replace(I, ''): v for k, v in env.items()}, got))
     except Undecided as ex:
         ctx.need(False, 'the default StallOnlyRequestHandler is a finite combinational function (%s)' % ex)
@@ -681,6 +725,7 @@ def check_plumbing(ctx):
 
 
 def run(ctx):
+    _DRV.clear()
     check_device(ctx, '')
     check_acm(ctx)
     check_plumbing(ctx)
